@@ -14,7 +14,10 @@
 //	           (priority is part of the build request: admin / high / normal / low)
 //	remove     RemoveOperator of the running (or of an already ended) operator
 //	exec       the store executes every command it received for the region, in order
-//	           (stale headers are dropped as TiKV does), then usually heartbeats
+//	           (stale headers are dropped as TiKV does), then usually heartbeats; in the
+//	           concurrent variant that heartbeat's Dispatch runs concurrently with
+//	           PushOperators and/or a second Dispatch, all of them meeting inside
+//	           Operator.Check on the step that was just finished (rendezvous wrapper)
 //	hb         heartbeat only
 //	lose       the commands in flight for the region are lost
 //	push       PushOperators
@@ -101,6 +104,9 @@ type Op struct {
 	Which int       `json:"which,omitempty"`
 	NoHB  bool      `json:"nohb,omitempty"` // exec without the heartbeat that normally follows
 	D     int       `json:"d,omitempty"`    // clock: index into clockSteps
+	// Race (exec): the heartbeat that follows is dispatched concurrently: 1 Dispatch || PushOperators,
+	// 2 Dispatch || Dispatch, 3 Dispatch || Dispatch || PushOperators (rendezvous inside Operator.Check)
+	Race int `json:"race,omitempty"`
 	F     *Foreign  `json:"f,omitempty"`
 }
 
@@ -260,6 +266,9 @@ func genCase(t *rapid.T) Case {
 			op.Which = simkit.IntU(t, 0, 2, "which")
 		case "exec":
 			op.NoHB = simkit.Pct(t, 10, "nohb")
+			if !op.NoHB && simkit.Pct(t, 30, "race") {
+				op.Race = simkit.Pick(t, []int{1, 2, 2, 3}, "raceMode")
+			}
 		case "clock":
 			op.D = simkit.Pick(t, []int{0, 0, 1, 1, 2, 2, 3, 3, 4, 5, 6}, "d")
 		case "remove":
